@@ -63,6 +63,9 @@ func main() {
 			for _, o := range res.Obs {
 				fmt.Printf("%-11s %-4s %s  @%s  %s %v\n", o.Status, o.Rule, o.Construct, o.Pos, o.Detail, o.Facts)
 			}
+			for _, e := range res.LoadErrors {
+				fmt.Printf("undecided   LOAD load-error  @-  %s\n", e)
+			}
 			for _, f := range res.Floors {
 				fmt.Printf("floor %-4s min=%d got=%d (%s)\n", f.Rule, f.Min, f.Got, f.What)
 			}
